@@ -69,7 +69,28 @@ def run(model: Model, rep: Report) -> None:
     r2.check("self.fp.seek(self.pos1-(y+1)*self.linesize)" in "".join(unparse(wl.node).split()), site(wl), wl.qualname, "row y is stored (y + 1) lines before the end: bottom-up", why="row position changed")
     sb = model.func(I + "ImageWriter._save_bmp")
     s2 = "".join(unparse(sb.node).split())
-    r2.check("bmp=BMPWriter(fp,bits,width,height)" in s2 and "foryinrange(height):bmp.write_line(y,data[i:i+bytes_per_line])i+=bytes_per_line" in s2, site(sb), sb.qualname, "rows are consecutive slices of bytes_per_line bytes of the decoded data", why="row slicing changed")
+    loops = [n for n in walk_no_nested(sb.node) if isinstance(n, ast.For) and "range(height)" in unparse(n.iter)]
+    wl_calls = [c for lp in loops for c in walk_no_nested(lp) if isinstance(c, ast.Call) and (dotted(c.func) or "").endswith(".write_line")]
+    adv = [n for lp in loops for n in walk_no_nested(lp) if isinstance(n, ast.AugAssign) and isinstance(n.op, ast.Add) and unparse(n.value) == "bytes_per_line"]
+    row_src = ""
+    if wl_calls and len(wl_calls[0].args) == 2:
+        a1 = wl_calls[0].args[1]
+        if isinstance(a1, ast.Name):
+            ds = [n.value for lp in loops for n in walk_no_nested(lp) if isinstance(n, ast.Assign) and unparse(n.targets[0]) == a1.id]
+            row_src = "".join(unparse(ds[0]).split()) if ds else ""
+        else:
+            row_src = "".join(unparse(a1).split())
+    r2.check("bmp=BMPWriter(fp,bits,width,height)" in s2 and len(loops) == 1 and len(wl_calls) == 1 and unparse(wl_calls[0].args[0]) == loops[0].target.id and row_src == "data[i:i+bytes_per_line]" and len(adv) == 1, site(sb), sb.qualname, "rows are consecutive slices of bytes_per_line bytes, row y written as line y", why=f"row source `{row_src}`, {len(adv)} advance(s)")
+    # R6: BMP stores a 24-bit pixel as blue, green, red - PDF samples are red, green, blue: a pure copy cannot be right
+    r6 = rep.rule("C18-R6", "NORMFORM", "24-bit BMP rows are re-ordered from R,G,B samples to the B,G,R order of the format", 1)
+    swapped = False
+    for lp in loops:
+        for n in walk_no_nested(lp):
+            if isinstance(n, ast.If) and "bits" in unparse(n.test) and "24" in unparse(n.test):
+                body = "".join(unparse(ast.Module(body=n.body, type_ignores=[])).split())
+                if ("[::-1]" in body and ",3)" in body) or ("[0::3]" in body and "[2::3]" in body) or "reversed(" in body:
+                    swapped = True
+    r6.check(swapped, site(sb), sb.qualname, "under `bits == 24` each group of three bytes is reversed before the row is written", why="the RGB samples are copied into the file as they are: a standard reader takes the first byte of a pixel for blue, so red and blue come out exchanged")
     # ---------------------------------------------------------------- R4
     r4 = rep.rule("C18-R4", "ORDER", "inline images: BI opens, ID closes into a dictionary, data starts after `ID `, terminator + white space ends it, EI is re-pushed", 7)
     dk = model.func(PI + "PDFContentParser.do_keyword")
@@ -88,3 +109,7 @@ def run(model: Model, rep: Report) -> None:
     s5 = "".join(unparse(ei.node).split())
     s5 = s5.replace("('H'inobj)", "'H'inobj")
     r4.check("isinstance(obj,PDFStream)and'W'inobjand'H'inobj" in s5 and "self.device.begin_figure(iobjid,(0,0,1,1),MATRIX_IDENTITY)self.device.render_image(iobjid,obj)self.device.end_figure(iobjid)" in s5, site(ei), ei.qualname, "EI hands the inline image to the device inside a unit figure", why="changed")
+    # ---------------------------------------------------------------- R5 (shared with C15-R3)
+    from .c15 import unique_name_rule
+
+    unique_name_rule(model, rep, "C18-R5")
